@@ -4,6 +4,7 @@ import (
 	"encoding/json"
 	"fmt"
 	"math/rand"
+	"strings"
 	"time"
 
 	"golang.org/x/mod/module"
@@ -52,6 +53,20 @@ func pseudoObs(in *pseudoIn) (map[string]any, string, time.Time) {
 	obs["ts"] = concrete.Ints(ts)
 	r, _ := module.PseudoVersionRev(pv)
 	obs["rev"] = concrete.Ints(r)
+	// history: the same questions about a version that differs in build metadata only, then about pv again -
+	// the answers about pv are the same as the first time
+	sib := pv + "+incompatible"
+	if i := strings.IndexByte(pv, '+'); i >= 0 {
+		sib = pv[:i]
+	}
+	module.PseudoVersionBase(sib)
+	module.PseudoVersionTime(sib)
+	module.PseudoVersionRev(sib)
+	b2, e2 := module.PseudoVersionBase(pv)
+	r2, _ := module.PseudoVersionRev(pv)
+	if (e2 == nil) != (err == nil) || (e2 == nil && b2 != base) || r2 != r {
+		obs["base"], obs["rev"] = concrete.Ints("after a call on "+sib+": "+b2), concrete.Ints(r2)
+	}
 	if semver.IsValid(older) {
 		obs["cmpbase"] = semver.Compare(older, pv)
 		p := module.PseudoVersion // silence
